@@ -753,6 +753,31 @@ func (w c04Wire) requestURI() string {
 	return t
 }
 
+// c04Respell returns another spelling of path p that path.Clean maps back to p:
+// doubled slash, trailing slash, "/./" and "/x/../" segments. k == 0 is p itself.
+func c04Respell(p string, k int) string {
+	if k < 0 {
+		k = -k
+	}
+	last := strings.LastIndexByte(p, '/')
+	switch k % 6 {
+	case 1:
+		if p == "/" {
+			return "//"
+		}
+		return p + "/"
+	case 2:
+		return "/" + p
+	case 3:
+		return "/." + p
+	case 4:
+		return "/x/.." + p
+	case 5:
+		return p[:last] + "//" + p[last+1:]
+	}
+	return p
+}
+
 var c04SigMethods = []string{"GET", "POST", "PUT", "DELETE", "HEAD", "OPTIONS", "PATCH"}
 
 func c04Verified(method string) bool {
@@ -764,7 +789,7 @@ func c04Verified(method string) bool {
 }
 
 var c04Tampers = []string{"time", "method", "path", "query", "body", "sig", "sig-empty", "fp-unknown", "fp-other",
-	"key", "secret-garbage", "secret-foreignkey", "noheader", "time-text", "query-drop", "body-drop", "body-suffix"}
+	"key", "secret-garbage", "secret-foreignkey", "noheader", "time-text", "query-drop", "body-drop", "body-suffix", "path-spelling", "path-spelling"}
 
 // c04Tamper applies exactly one alteration to a correctly signed request.
 // It returns false when the alteration would be the identity.
@@ -805,6 +830,16 @@ func c04Tamper(w c04Wire, r c04SigReq, ts int64, kind string, arg int) (c04Wire,
 		default:
 			setPQ("/admin"+w.Path, w.Query)
 		}
+	case "path-spelling":
+		// same route after path.Clean, different string than the one signed
+		np := c04Respell(w.Path, 1+arg%5)
+		if np == w.Path {
+			np = c04Respell(w.Path, 2+arg%4)
+		}
+		if np == w.Path {
+			return w, false
+		}
+		setPQ(np, w.Query)
 	case "query":
 		switch {
 		case w.Query == "":
